@@ -1,5 +1,6 @@
 """E2 support: edge-split CFG, branch atoms with polarity, dominance under assumptions,
 must-pass-through, post-dominance, flow-insensitive data slices."""
+import re
 from . import model
 from .model import X, show, walk, leaves, norm_path
 
@@ -34,6 +35,17 @@ def _callee_tail(p):
         return norm_path(tr), m
     parts = p.split("::")
     return "::".join(parts[:-1]), parts[-1]
+
+
+def strip_plumbing(p):
+    """`Option::as_ref(&x)` / `as_mut` / `as_deref` / `Result::as_ref` … -> x : the variant of the wrapper is the variant of x"""
+    for _ in range(6):
+        if isinstance(p, tuple) and p and p[0] == "call" and len(p[2]) == 1 and \
+                re.search(r"(Option|Result)(<.*>)?::(as_ref|as_mut|as_deref|as_deref_mut)$", p[1]):
+            p = strip_ref(p[2][0])
+        else:
+            break
+    return p
 
 
 def cmp_kind(e):
@@ -75,11 +87,11 @@ def facts_of(e, truth):
     if e[0] == "call":
         tr, m = _callee_tail(e[1])
         if tr.endswith("Option") and m in ("is_some", "is_none") and len(e[2]) == 1:
-            p = strip_ref(e[2][0])
+            p = strip_plumbing(strip_ref(e[2][0]))
             some = truth if m == "is_some" else not truth
             return [(("variant", p, "Some"), some), (("variant", p, "None"), not some), (("true", e), truth)]
         if tr.endswith("Result") and m in ("is_ok", "is_err") and len(e[2]) == 1:
-            p = strip_ref(e[2][0])
+            p = strip_plumbing(strip_ref(e[2][0]))
             ok = truth if m == "is_ok" else not truth
             return [(("variant", p, "Ok"), ok), (("variant", p, "Err"), not ok), (("true", e), truth)]
     return [(("true", e), truth)]
@@ -147,7 +159,7 @@ class Flow:
         elif e[0] == "discr":
             # find variant table from the defining rvalue
             vt = self._variant_table(t.discr)
-            p = e[1]
+            p = strip_plumbing(e[1])
             if k < len(t.targets):
                 v = t.targets[k][0]
                 name = vt.get(v, "#%d" % v)
